@@ -119,6 +119,8 @@ class Module:
         self.text = text.replace('\r\n', '\n')
         self.lines = self.text.split('\n')
         self.tree = ast.parse(self.text, filename=relpath)
+        from .desugar import desugar
+        self.tree = desugar(self.tree)      # match statements -> if chains (one statement vocabulary for all engines)
         # awesomeyaml/nodes/node.py -> awesomeyaml.nodes.node ; short = 'node' / 'yaml' ...
         mod = relpath[:-3].replace('/', '.')
         if mod.endswith('.__init__'):
@@ -165,8 +167,25 @@ class Module:
             cache[name] = None if mutated else g
         return cache[name]
 
+    def record_defaults(self, name):
+        """{field: default expression} of a class-based record (see namedtuple_fields)"""
+        ci = self.classes.get(name)
+        if ci is None:
+            return {}
+        return {st.target.id: st.value for st in ci.node.body if isinstance(st, ast.AnnAssign) and isinstance(st.target, ast.Name) and st.value is not None}
+
     def namedtuple_fields(self, name):
         """field names when `name = namedtuple('X', [...])` (or 'a b c' / 'a, b, c') is a module constant - else None"""
+        ci = self.classes.get(name)
+        if ci is not None and ci.outer is None:
+            # class-based records: typing.NamedTuple, @dataclass(frozen=True) - immutable, built from their arguments alone
+            decos = [unparse(d) for d in ci.node.decorator_list]
+            frozen_dc = any(d.split('(')[0] in ('dataclass', 'dataclasses.dataclass') and 'frozen=True' in d.replace(' ', '') for d in decos)
+            is_nt = any(b in ('NamedTuple', 'typing.NamedTuple') for b in ci.base_exprs)
+            if (frozen_dc or is_nt) and not any(m in ci.methods for m in ('__init__', '__new__', '__post_init__', '__getattr__', '__getattribute__')):
+                fields = [st.target.id for st in ci.node.body if isinstance(st, ast.AnnAssign) and isinstance(st.target, ast.Name) and 'ClassVar' not in unparse(st.annotation)]
+                return tuple(fields) if fields else None
+            return None
         g = self.constant_binding(name)
         if not (isinstance(g, ast.Call) and len(g.args) == 2 and not g.keywords):
             return None
